@@ -72,8 +72,8 @@ ANCHORS = [
 
 def plan(tier):
     if tier == "quick":
-        return {"shards": 16, "schemas": 260, "values": 10, "timeout": 300, "mirror": True}
-    return {"shards": 16, "schemas": 26000, "values": 10, "timeout": 3000, "mirror": True}
+        return {"shards": 16, "schemas": 260, "values": 10, "timeout": 900, "mirror": True}
+    return {"shards": 16, "schemas": 26000, "values": 10, "timeout": 7200, "mirror": True}
 
 
 def js_verdict(schema, value):
